@@ -1,6 +1,10 @@
 package fixture
 
-import "bufio"
+import (
+	"bufio"
+	"io"
+	"strings"
+)
 
 // Edge mimics the sentinel convention of gotree's tree.Edge for the SENTINEL control.
 type Edge struct {
@@ -49,4 +53,13 @@ func C09AdjPairsOK(names []string) bool {
 		}
 	}
 	return false
+}
+
+// C12KeepsCR: second positive control of LASTLINE (io.EOF handled, carriage return kept).
+func C12KeepsCR(r *bufio.Reader) (string, error) {
+	line, err := r.ReadString('\n')
+	if err == io.EOF && len(line) > 0 {
+		err = nil
+	}
+	return strings.TrimSuffix(line, "\n"), err
 }
